@@ -1,6 +1,8 @@
 pub mod c09;
+pub mod evict;
 pub mod hmodel;
 pub mod netscn;
+pub mod tchecks;
 
 use crate::check::Check;
 
@@ -9,6 +11,8 @@ pub fn all() -> Vec<Box<dyn Check>> {
     v.extend(hmodel::checks());
     v.push(Box::new(c09::C09));
     v.extend(netscn::checks());
+    v.extend(tchecks::checks());
+    v.extend(evict::checks());
     v
 }
 
